@@ -220,3 +220,92 @@ package tags
 //@ requires args: ctx != nil
 //@ assigns nothing
 //@ ensures sentinel: result != nil
+
+// ---- conditionals: exactly the first truthy branch is rendered (C10) --------------
+
+//@ func tags.ifTagCompiler$1$1
+//@ expect func(w io.Writer, ctx render.Context) error
+//@ props C10 C01
+//@ panics nothing
+//@ requires args: w != nil && ctx != nil
+//@ ghost evals Int = 0
+//@ ghost falsy Int = 0
+//@ ghost rendered Int = 0
+//@ ghost lastv Val = nil
+//@ ghost laste Val = nil
+//@ at call Evaluate #1 assert inOrder: arg0 == branches[evals].test && rendered == 0 && falsy == evals
+//@ at call Evaluate #1: evals = evals + 1
+//@ at call Evaluate #1: lastv = result0
+//@ at call Evaluate #1: laste = result1
+//@ at call Evaluate #1: falsy = ite(result1 == nil && (result0 == nil || result0 == box(false)), falsy + 1, falsy)
+//@ at call RenderBlock #1 assert firstTruthy: rendered == 0 && falsy == evals - 1 && laste == nil && lastv != nil && lastv != box(false) && arg1 == branches[evals-1].body
+//@ at call RenderBlock #1: rendered = rendered + 1
+//@ loop 1 invariant progress: evals == _i && falsy == _i && rendered == 0
+//@ ensures atMostOne: rendered <= 1
+//@ ensures noneWhenAllFalsy: rendered == 0 && result == nil ==> falsy == len(branches) && evals == len(branches)
+//@ ensures evalError: laste != nil ==> result == laste && rendered == 0
+//@ ensures truthyRendered: laste == nil && lastv != nil && lastv != box(false) && evals > 0 ==> rendered == 1
+
+//@ interface tags.caseInterpreter
+//@ method body pure
+//@ method test
+//@ assigns nothing
+
+//@ func tags.caseTagCompiler$1
+//@ expect func(w io.Writer, ctx render.Context) error
+//@ props C10 C01
+//@ panics nothing
+//@ requires args: w != nil && ctx != nil && forall(k, 0, len(cases), cases[k] != nil)
+//@ ghost tests Int = 0
+//@ ghost misses Int = 0
+//@ ghost rendered Int = 0
+//@ ghost lastb Bool = false
+//@ ghost laste Val = nil
+//@ ghost subject Val = nil
+//@ ghost sube Val = nil
+//@ at call Evaluate #1: subject = result0
+//@ at call Evaluate #1: sube = result1
+//@ at call test #1 assert inOrder: rendered == 0 && misses == tests && arg0 == subject && sube == nil
+//@ at call test #1: tests = tests + 1
+//@ at call test #1: lastb = result0
+//@ at call test #1: laste = result1
+//@ at call test #1: misses = ite(result1 == nil && !result0, misses + 1, misses)
+//@ at call RenderBlock #1 assert firstMatch: rendered == 0 && misses == tests - 1 && laste == nil && lastb && arg1 == cases[tests-1].body()
+//@ at call RenderBlock #1: rendered = rendered + 1
+//@ loop 1 invariant progress: tests == _i && misses == _i && rendered == 0 && sube == nil
+//@ ensures atMostOne: rendered <= 1
+//@ ensures noneWhenNoMatch: rendered == 0 && result == nil ==> misses == len(cases)
+//@ ensures subjectError: sube != nil ==> result == sube && tests == 0 && rendered == 0
+
+//@ func (tags.elseCase).test
+//@ props C10 C01
+//@ panics nothing
+//@ assigns nothing
+//@ ensures always: result0 && result1 == nil
+
+//@ func (tags.elseCase).body
+//@ pure
+//@ props C10 C01
+//@ ensures def: result == c.b
+
+//@ func (tags.exprCase).body
+//@ pure
+//@ props C10 C01
+//@ ensures def: result == c.b
+
+//@ func (tags.exprCase).test
+//@ props C10 C01
+//@ panics nothing
+//@ assigns nothing
+//@ requires args: ctx != nil
+//@ ghost evals Int = 0
+//@ ghost vals (Array Int Val) = const nil
+//@ ghost laste Val = nil
+//@ at call Evaluate #1 assert inOrder: arg0 == c.Exprs[evals]
+//@ at call Evaluate #1: vals[evals] = result0
+//@ at call Evaluate #1: laste = result1
+//@ at call Evaluate #1: evals = evals + 1
+//@ loop 1 invariant noneEqual: evals == _i && laste == nil && forall(k, 0, evals, !values.Equal(caseValue, vals[k]))
+//@ ensures match: result0 ==> result1 == nil && evals > 0 && values.Equal(caseValue, vals[evals-1])
+//@ ensures nomatch: !result0 && result1 == nil ==> evals == len(c.Exprs) && forall(k, 0, evals, !values.Equal(caseValue, vals[k]))
+//@ ensures error: laste != nil ==> result1 == laste && !result0
